@@ -8,54 +8,62 @@ runs in PRODUCT with the control flow of `builder::run` (`RedoModel/RunTok.lean`
 flow drives `start`, `release_mine` and `wait_all`, the event loop interleaves child exits, token reads and cheats at
 any program counter, and a counter step that the control flow reaches although `TokLoop` calls it unreachable is the
 outcome `stuck`.  The only assumption linking the two machines is the contract of `ensure_token_or_cheat` (it returns
-only when the process holds a token).  Property theorems only.
+only when the process holds a token).  `PSt.treeTop` says whether the process is the top of its redo tree under a
+foreign jobserver (then "`run` returned" drives `TokLoop`'s `.exitTop` instead of `.exit`); the theorems hold for both
+(argument `top`, default `false`).  Property theorems only.
 -/
 namespace C09
 open RedoModel RedoModel.RunTok
 
 /-- No Rust assertion on the token counter fails, whatever the control flow and the environment do. -/
-theorem product_never_panics (c : RunLoop.Cfg) (es : List PEv) : prun c {} es ≠ .panic := by
+theorem product_never_panics (c : RunLoop.Cfg) (es : List PEv) (top : Bool := false) :
+    prun c { treeTop := top } es ≠ .panic := by
   intro h
-  have := prun_good (c := c) PInv.init es
+  have := prun_good (c := c) (PInv.initTop top) es
   rw [h] at this; exact this
 
 /-- `start` and `release_mine` are only ever reached with a token: the enabling guards of `TokLoop` follow from the
 control flow and the `ensure_token_or_cheat` contract. -/
-theorem product_never_stuck (c : RunLoop.Cfg) (es : List PEv) : prun c {} es ≠ .stuck := by
+theorem product_never_stuck (c : RunLoop.Cfg) (es : List PEv) (top : Bool := false) :
+    prun c { treeTop := top } es ≠ .stuck := by
   intro h
-  have := prun_good (c := c) PInv.init es
+  have := prun_good (c := c) (PInv.initTop top) es
   rw [h] at this; exact this
 
 /-- In every reachable state of the product the process holds at most one token. -/
-theorem product_at_most_one_token (c : RunLoop.Cfg) (es : List PEv) (s : PSt) (h : prun c {} es = .ok s) :
+theorem product_at_most_one_token (c : RunLoop.Cfg) (es : List PEv) (s : PSt) {top : Bool}
+    (h : prun c { treeTop := top } es = .ok s) :
     s.tok.my ≤ 1 := by
-  have := prun_good (c := c) PInv.init es
+  have := prun_good (c := c) (PInv.initTop top) es
   rw [h] at this; exact this.le
 
 /-- Whenever the control flow believes it has a token in hand (`RunLoop`'s `tokHeld`, see `token_in_hand` in C09d for
 the program counters where that is the case), the counter agrees. -/
-theorem product_token_in_hand_is_counted (c : RunLoop.Cfg) (es : List PEv) (s : PSt) (h : prun c {} es = .ok s)
+theorem product_token_in_hand_is_counted (c : RunLoop.Cfg) (es : List PEv) (s : PSt) {top : Bool}
+    (h : prun c { treeTop := top } es = .ok s)
     (ht : s.ctl.tokHeld = true) : s.tok.my = 1 := by
-  have := prun_good (c := c) PInv.init es
+  have := prun_good (c := c) (PInv.initTop top) es
   rw [h] at this; exact this.hand ht
 
 /-- At the program counters from which `start` or `release_mine` can be reached, the process holds exactly one
 token. -/
-theorem product_one_token_where_needed (c : RunLoop.Cfg) (es : List PEv) (s : PSt) (h : prun c {} es = .ok s)
+theorem product_one_token_where_needed (c : RunLoop.Cfg) (es : List PEv) (s : PSt) {top : Bool}
+    (h : prun c { treeTop := top } es = .ok s)
     (hp : RunLoop.needsTokenPc s.ctl.pc = true) : s.tok.my = 1 := by
-  have := prun_good (c := c) PInv.init es
+  have := prun_good (c := c) (PInv.initTop top) es
   rw [h] at this; exact this.hand (this.ctl.tok hp)
 
 /-- The counter's `running` is the number of forks whose child's exit has not been noticed yet. -/
-theorem product_running_counts_unexited_children (c : RunLoop.Cfg) (es : List PEv) (s : PSt)
-    (h : prun c {} es = .ok s) : s.tok.running + es.countP isExit = es.countP isFork := by
+theorem product_running_counts_unexited_children (c : RunLoop.Cfg) (es : List PEv) (s : PSt) {top : Bool}
+    (h : prun c { treeTop := top } es = .ok s) : s.tok.running + es.countP isExit = es.countP isFork := by
   have := prun_running h
   simpa using this
 
 /-- The product only restricts the control flow: the control events of an accepted product run are an accepted run of
 `RunLoop`, with the same final control state — so every `RunLoop` theorem (C05c, C06b, C07d, C09d) holds of the
 product. -/
-theorem product_projects_to_control (c : RunLoop.Cfg) (es : List PEv) (s : PSt) (h : prun c {} es = .ok s) :
+theorem product_projects_to_control (c : RunLoop.Cfg) (es : List PEv) (s : PSt) {top : Bool}
+    (h : prun c { treeTop := top } es = .ok s) :
     RunLoop.run c {} (es.filterMap ctlOf) = .ok s.ctl :=
   prun_ctl h
 
@@ -93,10 +101,33 @@ example : (match prun {} {} (sampleRun.take 30) with
 
 /-- Every cheat of the product is backed (token in hand or a child under way): the invariant behind the two assertions
 of `do_force_return_tokens`, which the product reaches at `.ctl (.fin ok)`. -/
-theorem product_cheats_are_backed (c : RunLoop.Cfg) (es : List PEv) (s : PSt) (h : prun c {} es = .ok s) :
+theorem product_cheats_are_backed (c : RunLoop.Cfg) (es : List PEv) (s : PSt) {top : Bool}
+    (h : prun c { treeTop := top } es = .ok s) :
     TokLoop.Backed s.tok := by
-  have := prun_good (c := c) PInv.init es
+  have := prun_good (c := c) (PInv.initTop top) es
   rw [h] at this; exact this.backed
+
+/-- The top of a redo tree under a foreign (make-style) jobserver (`treeTop`): once `run` has returned and
+`do_force_return_tokens` has run, the process holds exactly one token — the one make gets back — whatever the control
+flow and the environment did before. -/
+theorem product_tree_top_leaves_with_a_token (c : RunLoop.Cfg) (es : List PEv) (s : PSt)
+    (h : prun c { treeTop := true } es = .ok s) (hx : s.tok.exited = true) : s.tok.my = 1 :=
+  (prun_top (PInv.initTop true) h).2 rfl (by intro h; cases h) hx
+
+/-- `treeTop` is a constant of the process. -/
+theorem product_tree_top_is_constant (c : RunLoop.Cfg) (es : List PEv) (s : PSt) {top : Bool}
+    (h : prun c { treeTop := top } es = .ok s) : s.treeTop = top :=
+  (prun_top (PInv.initTop top) h).1
+
+/-- `sampleRun` at the top of a redo tree: the process that would leave with `(0, 0)` leaves with the token taken back;
+everything before the exit is the same. -/
+example : (match prun {} { treeTop := true } sampleRun with
+    | .ok s => s.ctl.pc == .ended true && s.tok == { my := 1, cheats := 0, running := 0, exited := true }
+    | _ => false) = true := by decide
+
+example : (match prun {} { treeTop := true } (sampleRun.take 37), prun {} {} (sampleRun.take 37) with
+    | .ok s, .ok s' => s.tok == s'.tok && s.tok == { my := 0, cheats := 0, running := 0 }
+    | _, _ => false) = true := by decide
 
 /-- The IOU of another process is never taken while the own cheat is outstanding: in `sampleRun`, replacing the exit
 of the child that carries the synthesised token by `childExitEat` is not a behaviour, while the same step is one where
